@@ -28,6 +28,7 @@ import dns.rdataclass
 import dns.rdataset
 import dns.rdatatype
 import dns.rdtypes.ANY.RRSIG
+import dns.rdtypes.ANY.ZONEMD
 import dns.rrset
 import dns.versioned
 import dns.zone
@@ -36,6 +37,12 @@ from ..refs import dnssec as ref
 
 PROPERTY = "C15"
 LEVEL = "exploration"
+
+# dnspython imports its rdata modules lazily; load them all now so that forked workers and
+# the replay in the parent never import from the tree half-way through a run
+for _c in (dns.rdataclass.IN, dns.rdataclass.CH, dns.rdataclass.ANY):
+    for _t in dns.rdatatype.RdataType:
+        dns.rdata.get_rdata_class(_c, _t)
 
 
 def crash_sig(e):
@@ -185,11 +192,6 @@ PLAIN_SPECS = [
     ("IN", "AMTRELAY", "10 0 2 2001:db8::15"),
     ("CH", "TXT", '"VERSION.Bind"'),
 ]
-
-
-def spec_names(spec, spellings):
-    n = 1 + max([v for k, v in spec[5] if k == "name"])
-    return n
 
 
 def resolve_names(spells, origin1, mode, origin2):
@@ -959,7 +961,8 @@ ZM_BASE = [
 ZM_OPTIONS = [
     ("apex-zonemd", [zrr("@", 3600, RR_ZONEMD(1, 1, 1, "00" * 48))]),
     ("apex-rrsig-zonemd", [zrr("@", 3600, RR_RRSIG("ZONEMD", 63))]),
-    ("apex-rrsig-soa", [zrr("@", 3600, RR_RRSIG("SOA", 6, "EXAMPLE.org."))]),
+    ("apex-rrsig-soa+dnskey", [zrr("@", 3600, RR_RRSIG("SOA", 6, "EXAMPLE.org.")),
+                               zrr("@", 3600, RR_DNSKEY(257, "QUJDWg==", "4142435a"))]),
     ("www-a", [zrr("Www", 300, RR_A("10.0.0.2")), zrr("WWW", 300, RR_A("10.0.0.1"))]),
     ("mail-mx", [zrr("mail", 600, RR_MX(10, "B.Example.ORG.")), zrr("mail", 600, RR_MX(10, "a")),
                  zrr("mail", 600, RR_MX(10, "C.Other."))]),
@@ -1010,7 +1013,7 @@ def check_zonemd(case):
     outcome = "zonemd:" + ("ok" if not probs else "BAD")
     # verify_digest: a ZONEMD carrying the reference digest must verify; a wrong one must not
     if case.get("verify"):
-        import dns.rdtypes.ANY.ZONEMD as ZM
+        ZM = dns.rdtypes.ANY.ZONEMD
         good = ZM.ZONEMD(dns.rdataclass.IN, dns.rdatatype.ZONEMD, 1, 1, alg, exp)
         badd = bytes([exp[0] ^ 1]) + exp[1:]
         bad = ZM.ZONEMD(dns.rdataclass.IN, dns.rdatatype.ZONEMD, 1, 1, alg, badd)
